@@ -956,6 +956,102 @@ def cycle_cases(ctx, rng, cuqi, state, cases):
     return checked
 
 
+# ---------------- kernel-law cells on open orbits ----------------
+def exact_orbit(prec, eps, x0, z, lo, hi):
+    """leapfrog orbit positions lo..hi through (x0, z) in exact rationals (harness's own arithmetic): {i: (x, r, logd, H)}"""
+    p, h = [frac(v) for v in prec], frac(eps)
+
+    def val(x, r):
+        logd = -sum(pi * xi * xi for pi, xi in zip(p, x)) / 2
+        return (list(x), list(r), logd, logd - sum(ri * ri for ri in r) / 2)
+
+    def step(x, r, e):
+        r1 = [ri - e / 2 * pi * xi for ri, pi, xi in zip(r, p, x)]
+        x1 = [xi + e * ri for xi, ri in zip(x, r1)]
+        return x1, [ri - e / 2 * pi * xi for ri, pi, xi in zip(r1, p, x1)]
+    out = {0: val([frac(v) for v in x0], [frac(v) for v in z])}
+    for sign, idx in ((1, range(1, hi + 1)), (-1, range(-1, lo - 1, -1))):
+        for i in idx:
+            x, r = step(out[i - sign][0], out[i - sign][1], sign * h)
+            out[i] = val(x, r)
+    return out
+
+
+def open_kernel_one(rng, cuqi, d, md, cut):
+    """one start on an ordinary (open) orbit of a d-dimensional Gaussian on which binary64 is exact, with the enumerated law of
+    the new point of both samplers: list of cases, or None if this draw is not usable"""
+    prec = [rng.choice([1, 2, 4, 9, 0.25]) for _ in range(d)]
+    eps = rng.choice([0.25, 0.5, 0.125])
+    x0 = [dy(rng, -1.25, 1.25, 8) for _ in range(d)]
+    z = [dy(rng, -2, 2, 16) for _ in range(d)]
+    span = 2 ** (md + 1) - 1
+    orb = exact_orbit(prec, eps, x0, z, -span, span)
+    small = lambda v: v.numerator.bit_length() <= 22 and v.denominator.bit_length() <= 22
+    if not all(small(v) for o in orb.values() for v in o[0] + o[1]) or not all(frac(float(o[3])) == o[3] for o in orb.values()):
+        return None          # binary64 would round somewhere on this orbit
+    if len(set(tuple(o[0]) for o in orb.values())) < len(orb):
+        return None          # the new POINT identifies the orbit position only if the positions are distinct
+    dd = sorted(set(orb[0][3] - o[3] for o in orb.values() if 0 < orb[0][3] - o[3] < 500))
+    if cut and not dd:
+        return None
+    if cut:
+        k_ = rng.randrange(len(dd))
+        e = (dd[k_] + (dd[k_ + 1] if k_ + 1 < len(dd) else dd[k_] * 3 / 2)) / 2          # a slice level that cuts the orbit
+    else:
+        e = frac(dy(rng, 0, 2, 64)) + Fraction(1, 128)
+    if frac(float(e)) != e:
+        return None
+    logu = orb[0][3] - e
+    spec = {"kind": "gauss", "prec": prec}
+    pos = {tuple(o[0]): i for i, o in orb.items()}
+    out = []
+    for impl in ("exp", "leg"):
+        meta = {"impl": impl, "target": spec, "eps": eps, "max_depth": md, "x0": x0, "z": z, "e": float(e), "orbit": True, "kernel_law": True}
+        fail = None
+        try:
+            law = kernel_from(cuqi, impl, spec, eps, md, x0, z, float(e), max_runs=3000)
+        except TooManyRuns:
+            return None
+        except RunawayDepth:
+            law, fail = {}, "the sampler takes more random decisions than a transition of max_depth %d can take" % md
+        except Exception as ex:
+            law, fail = {}, "kernel enumeration crashed: %r" % ex
+        obs = {}
+        for pt, w in law.items():
+            key = tuple(frac(v) for v in pt)
+            obs[key] = obs.get(key, 0) + w
+            if fail is None and w > 0 and key not in pos:
+                fail = "the sampler moved to %s, which is not a point of the leapfrog orbit through the start (within reach)" % (list(pt),)
+            elif fail is None and w > 0 and orb[pos[key]][3] < logu:
+                fail = ("a state outside the slice (orbit position %d, H=%s, log u=%s) is selected with probability %s"
+                        % (pos[key], float(orb[pos[key]][3]), float(logu), w))
+        if fail is None and law and sum(obs.values()) != 1:
+            fail = "enumerated probabilities sum to %s" % sum(obs.values())
+        expr = "check_kernel %s %s %s (qc %s) %s %s %s %s" % (
+            ctarget(spec), cbool(impl == "exp"), cnat(md), cq(frac(eps) / 2), cqvec(x0), cqvec(z), cq(e),
+            clist(["(%s, %s)" % (cqvec(list(pt)), cq(w)) for pt, w in sorted(obs.items())]))
+        out.append(Case(expr=expr if law else "true", meta=meta, cell="%s/open-orbit/d%d/md%d/%s/kernel-law" % (impl, d, md, "cut" if cut else "grid"),
+                        kind="EXACT", impl_fail=fail, signature="NUTS.%s.orbit_stationarity" % impl if fail else ""))
+    return out
+
+
+def open_kernel_cases(ctx, rng, cuqi, state, cases):
+    """kernel-law cells on ordinary (open) orbits of Gaussian targets, dims 1-3, max_depth 1-2: the exact law of the new point
+    of the real sampler EQUALS the law of the model (check_kernel); oracle: every outcome is an in-slice point of the orbit"""
+    made = 0
+    for rep in range(ctx.n(1, 4)):
+        for d in (1, 2, 3):
+            for md in (1, 2):
+                for cut in (True, False):
+                    for attempt in range(80):          # every cell is filled whatever the seed: draw until usable
+                        got = open_kernel_one(rng, cuqi, d, md, cut)
+                        if got is not None:
+                            cases.extend(got)
+                            made += 1
+                            break
+    return made
+
+
 # ---------------- generator ----------------
 def dy(rng, lo, hi, den):
     return rng.randint(int(lo * den), int(hi * den)) / den
@@ -1514,6 +1610,7 @@ def run(ctx):
     scale_cases(ctx, rng, cuqi, state, cases)
     lesson4_cases(ctx, rng, cuqi, state, cases)
     cyc_checked = cycle_cases(ctx, rng, cuqi, state, cases)
+    open_checked = open_kernel_cases(ctx, rng, cuqi, state, cases)
     # how many of the scripted transitions were decided with all margins (sample)
     small = [t for t in inners if len(t) < 2500]
     sample = rng.sample(small, min(len(small), 40))
@@ -1580,7 +1677,7 @@ def run(ctx):
             cases.append(Case(expr="true", meta=meta, cell="%s/orbit-stationarity/md2-cut" % impl, kind="DECISION", impl_fail=d,
                               signature="NUTS.%s.orbit_stationarity" % impl if d else ""))
     return Result(cases=cases, rule=RULE,
-                  extra={"orbit_stationarity_checks": checked, "closed_orbit_stationarity_checks": cyc_checked, "legacy_step_size_1.0_replaced_by_FindGoodEpsilon": state["leg_eps_replaced"],
+                  extra={"orbit_stationarity_checks": checked, "closed_orbit_stationarity_checks": cyc_checked, "open_orbit_kernel_law_starts": open_checked, "legacy_step_size_1.0_replaced_by_FindGoodEpsilon": state["leg_eps_replaced"],
                          "legacy_refuses_+inf": state["leg_guard"],
                          "transitions_skipped_for_float_overflow": state["skipped_float_overflow"]},
                   assumptions=["targets are user-defined polynomial log-densities (Gaussian with diagonal precision, two-piece normal, quartic, box-truncated with NaN/-inf/+inf outside)",
@@ -1598,6 +1695,9 @@ def oracle(ctx, meta):
     import cuqi
     if meta.get("cycle"):
         return cycle_replay(cuqi, meta)
+    if meta.get("orbit") and meta.get("kernel_law"):
+        return orbit_stationary(cuqi, meta["impl"], meta["target"], meta["eps"], meta["max_depth"], meta["x0"], meta["z"], meta["e"],
+                                all_targets=True, allow_ties=True)
     if "scripts" not in meta:
         return None
     _ORACLE_BUDGET["calls"] += 1
